@@ -197,6 +197,9 @@ NAME_CLASSES = {
     "only_us": (lambda r: r.choice(["__", "___"]), ["__"]),
     "near_table": (lambda r: r.choice(["Tables", "TableName", "table", "TABLE", "Table_", "_Table", "MyTable", "Tabl",
                                        "TableX", "Table1"]), ["table", "TABLE", "Tables"]),
+    # unstructured mixes of capitals, lower case, digits and underscores
+    "random_mix": (lambda r: "".join(r.choice("AaBbXxZ019_") if r.random() < 0.8 else r.choice(["HTTP", "Ab", "x_", "_Y", "2d", "D2"])
+                                     for _ in range(r.randint(2, 7))), ["ABc1dEF", "aBC", "X1Y", "a1B2c", "AB_cD", "Ab1C2d"]),
     # field-name flavours for #[enum_def] structs
     "f_lower_single": (lambda r: _w(r).lower(), ["name", "id"]),
     "f_lower_snake": (lambda r: _w(r).lower() + "_" + _w(r).lower() + (r.random() < 0.3 and "_" + _w(r).lower() or ""),
@@ -220,8 +223,10 @@ VARIANT_CLASS_WEIGHTS = [
     ("single_letter", 1), ("two_letter", 1), ("letter_word", 2), ("word_letter", 2), ("lead_us", 2), ("trail_us", 2),
     ("dbl_us", 2), ("mid_us", 2), ("lower_snake", 2), ("lower_single", 1), ("lower_digit", 1), ("camel_lower", 1),
     ("shouty", 1), ("us_digit", 1), ("only_us", 0.3), ("near_table", 1.5),
+    ("random_mix", 3),
 ]
-TYPE_CLASS_WEIGHTS = [(c, w) for c, w in VARIANT_CLASS_WEIGHTS if c not in ("only_us",)]
+_PASCALISH = ("pascal1", "pascal2", "pascal3", "acr_lead", "acr_mid", "acr_tail", "digit_tail", "digit_mid", "acr_digit_word")
+TYPE_CLASS_WEIGHTS = [(c, w * 3 if c in _PASCALISH else w) for c, w in VARIANT_CLASS_WEIGHTS if c not in ("only_us",)]
 FIELD_CLASS_WEIGHTS = [("f_lower_single", 4), ("f_lower_snake", 5), ("f_lower_digit", 3), ("f_camel", 1.5),
                        ("f_lead_us", 1.5), ("f_dbl_us", 1.5), ("f_trail_us", 1), ("f_upper", 1)]
 
@@ -278,6 +283,9 @@ RENAMES = {
     "mixed": ['a"b`c]d', "\"`]'", "é\"`"],
     "percent": ["100%", "a%sb"],
 }
+SPECIAL_CHAR = {"dquote": '"', "backtick": "`", "squote": "'", "dash": "-", "space": " ", "dot": ".", "rbracket": "]",
+                "lbracket": "[", "backslash": "\\", "percent": "%", "nonascii": "é"}
+PLAIN_FRAGMENTS = ["a", "b", "x1", "user_id", "Na", "col", "_t", "Z9"]
 PLAIN_RENAME_CLASSES = ["plain", "plain", "plain", "plain", "underscore_only", "empty"]
 NONPLAIN_RENAME_CLASSES = ["dquote", "dquote", "backtick", "backtick", "squote", "dash", "space", "dot", "nonascii",
                            "nonascii", "digit_first", "rbracket", "rbracket", "lbracket", "backslash", "brace",
@@ -419,16 +427,27 @@ class Generator:
             return n, cls
         raise Inconclusive("name pool exhausted")
 
-    def rename(self, plain, allow_brace=True):
+    def rename(self, plain, allow_brace=True, quoteish=False):
         classes = PLAIN_RENAME_CLASSES if plain else NONPLAIN_RENAME_CLASSES
+        if quoteish and self.r.random() < 0.7:
+            # names holding a closing-quote character of some backend: only
+            # these can tell escaped from unescaped output
+            classes = ["dquote", "backtick", "rbracket", "mixed"]
         while True:
             c = self.r.choice(classes)
             if c == "brace" and not allow_brace:
                 continue
+            ch = SPECIAL_CHAR.get(c)
+            if ch is not None and self.r.random() < 0.6:
+                # composed: plain fragments around the special character
+                a, b = self.r.choice(PLAIN_FRAGMENTS), self.r.choice(PLAIN_FRAGMENTS)
+                s = self.r.choice([a + ch + b, a + ch + b, a + ch, a + ch + ch + b, ch + b, a + ch + b + ch])
+                assert not is_plain(s)
+                return s, c
             return self.r.choice(RENAMES[c]), c
 
-    def rename_attr(self, plain, allow_brace=True):
-        s, c = self.rename(plain, allow_brace)
+    def rename_attr(self, plain, allow_brace=True, quoteish=False):
+        s, c = self.rename(plain, allow_brace, quoteish)
         return (self.r.choice(["iden_eq", "iden_rename"]), s, c)
 
     # -- modules / types -----------------------------------------------------
@@ -451,19 +470,21 @@ class Generator:
         else:
             self.gen_enum(module, taken, kind == "enum_static", 0)
 
-    def gen_unit(self, module, taken, static):
+    def gen_unit(self, module, taken, static, force_nonplain=False):
         t = TypeDef()
         t.kind = "unit_static" if static else "unit_iden"
         t.name, t.ncls = self.pick(TYPE_CLASS_WEIGHTS + [("pascal2", 10)], taken)
         taken.add(t.name)
         x = self.r.random()
-        if x < 0.5:
+        if force_nonplain:
+            t.container = self.rename_attr(False, allow_brace=False, quoteish=True)
+        elif x < 0.5:
             t.container = None
         elif x < 0.7:
             t.container = self.rename_attr(True)
         else:
-            # `{`/`}` are kept out of unit-struct renames: see PINNED
-            t.container = self.rename_attr(False, allow_brace=False)
+            # `{`/`}` are kept out of unit-struct renames: see pinned_module()
+            t.container = self.rename_attr(False, allow_brace=False, quoteish=True)
         t.is_copy = static or self.r.random() < 0.5
         self.register(t, module)
         return t
@@ -478,7 +499,10 @@ class Generator:
             t.name, t.ncls = self.pick(TYPE_CLASS_WEIGHTS, taken)
         taken.add(t.name)
         self.register(t, module)  # outer type gets the lower tid
-        theme = weighted(r, [("plain_noattr", 25), ("plain_renames", 15), ("one_nonplain", 25), ("wild", 35)])
+        theme = weighted(r, [("plain_noattr", 22), ("plain_renames", 13), ("one_nonplain", 22), ("one_method", 6),
+                             ("one_flatten", 5), ("wild", 32)])
+        if theme == "one_flatten" and depth >= 2:
+            theme = "one_method"
         t.theme = theme
         nvar = r.randint(1, 7)
         vtaken = set()
@@ -496,7 +520,7 @@ class Generator:
             t.container = None
         elif theme == "plain_renames":
             t.container = self.rename_attr(True) if r.random() < 0.5 else None
-        elif theme == "one_nonplain":
+        elif theme in ("one_nonplain", "one_method", "one_flatten"):
             t.container = self.rename_attr(True) if r.random() < 0.3 else None
         else:
             x = r.random()
@@ -508,10 +532,14 @@ class Generator:
             # `Table`) or one variant's rename
             table_idx = [i for i, (n, _) in enumerate(specs) if n == "Table"]
             if table_idx and r.random() < 0.3:
-                t.container = self.rename_attr(False)
+                t.container = self.rename_attr(False, quoteish=True)
                 nonplain_slot = ("container", table_idx[0])
             else:
                 nonplain_slot = ("variant", r.randrange(len(specs)))
+        elif theme in ("one_method", "one_flatten"):
+            # every name plain except one that the macro cannot see at
+            # expansion time (a method's return value / a delegated value)
+            nonplain_slot = (theme, r.randrange(len(specs)))
         flat_children = 0
         for i, (n, c) in enumerate(specs):
             form = "unit"
@@ -525,9 +553,24 @@ class Generator:
             elif theme == "one_nonplain":
                 form = weighted(r, [("unit", 8), ("tuple", 1.5), ("named", 0.5)])
                 if nonplain_slot == ("variant", i):
-                    attr = self.rename_attr(False)
+                    attr = self.rename_attr(False, quoteish=True)
                 elif nonplain_slot == ("container", i):
                     attr = None
+                elif r.random() < 0.35:
+                    attr = self.rename_attr(True)
+            elif theme in ("one_method", "one_flatten"):
+                form = weighted(r, [("unit", 8), ("tuple", 1.5), ("named", 0.5)])
+                if nonplain_slot == ("one_method", i):
+                    self.method_ctr += 1
+                    mname = f"quoted_name_{self.method_ctr}"
+                    s, sc = self.rename(False, quoteish=True)
+                    rty = "&'static str" if static else r.choice(["&'static str", "&str", "::std::string::String"])
+                    t.methods.append((mname, rty, s))
+                    attr = (r.choice(["method_eq", "iden_method"]), mname, s, sc)
+                elif nonplain_slot == ("one_flatten", i):
+                    inner = self.gen_unit(module, taken, static or r.random() < 0.3, force_nonplain=True)
+                    attr = ("flatten", inner)
+                    form = r.choice(["tuple", "named"])
                 elif r.random() < 0.35:
                     attr = self.rename_attr(True)
             else:
@@ -810,10 +853,10 @@ def run_cmd(cmd, cwd, timeout, stdin=None):
 
 
 def lockfile_src():
-    p = os.path.join(REPO, "Cargo.lock")
-    if not os.path.exists(p):
-        raise Inconclusive(f"{p} missing")
-    return p
+    for p in (os.path.join(REPO, "Cargo.lock"), "/repo/Cargo.lock"):
+        if os.path.exists(p):
+            return p
+    raise Inconclusive(f"{os.path.join(REPO, 'Cargo.lock')} missing")
 
 
 def heck_reference(names):
@@ -1277,4 +1320,13 @@ def main():
 
 
 if __name__ == "__main__":
-    sys.exit(main())
+    try:
+        rc = main()
+    except SystemExit:
+        raise
+    except BaseException as ex:  # a crash of the harness is never a verdict
+        import traceback
+        traceback.print_exc()
+        say(f"INCONCLUSIVE: driver crashed: {type(ex).__name__}: {ex}")
+        rc = 2
+    sys.exit(rc)
